@@ -8,6 +8,9 @@ CHECKS = {
  "C01": ("exploration", "runtime monitor: tag-joined pairing oracle over client/handler records + wire tap, stress over topologies/schedules, final-state (stop-the-world snapshot) hang detection",
          "Exactly-once / byte-equality pairing oracle over every unary call of seeded concurrent workloads (1..64 callers on one connection, replies forced to overtake requests, 3 topologies, serialising and by-reference links, GOMAXPROCS 1/4/16, jittered hook points). Held on the executions produced; schedules are sampled, not enumerated.",
          "Trusts the harness link (reliable, FIFO), grpc's proto codec, and the Go runtime's goroutine snapshot for hang verdicts.", "DESIGN.md 2/C01"),
+ "C11": ("exploration", "runtime monitor: probe-completion oracle at provably final states (stop-the-world goroutine snapshots), rendezvous hooks forcing the unregister/teardown-vs-read-loop interleavings",
+         "Every (k,n) handler-returns-early and every m-unread caller-cancel abandonment, per stream kind and load level, followed by a no-deadline probe and a manual-deadline probe; the hang verdict is taken only in a state where every goroutine is durably blocked, so it is sound; interleavings of read loop vs. handler exit are forced by rendezvous at the unregistration/teardown hooks plus jitter, not enumerated.",
+         "Trusts the final-state detector (Go runtime goroutine states) and the harness link; HOL blocking by a live, slow consumer is by design and never produced by the generators.", "DESIGN.md 2/C11"),
 }
 NOT_YET = "check not built yet in this round (runtime-monitoring design in DESIGN.md section 2); will be claimed once its monitor exists"
 
